@@ -342,21 +342,37 @@ func c08Shuffle(c *Ctx, alts []c08Alt) {
 
 // c08Compile builds
 //
-//	S : L_i 'a' f_i (i in group 1) | 'b' L_j 'a' g_j (j in group 2) ;  P_x : 'a' ;  L_i : (?= …) ;
+//	S : L_i t_j f (i in relA[j]) | 'b' L_i t_j f (i in relB[j]) ;  P_x : t_0 ;  L_i : (?= …) ;
 //
-// with inputs P_0 … P_{n-1}, S.  The start state of S reduces every L_i of group 1 on 'a', the state after 'b'
-// those of group 2; ruleAction/addRule merge them and planner.compile builds one LookaheadRule per
-// distinct set.  Returns, per group, the alternatives in planner order and the rule found by
-// walking the tables.
-func c08Compile(c *Ctx, alts []c08Alt, nIn int, g1, g2 []int, laOrder []int) (ok bool) {
-	const tEOI, tA, tB = 0, 1, 2
-	nFollow := len(g1) + len(g2)
-	terms := 3 + nFollow
+// with inputs P_0 … P_{n-1}, S.  The start state of S reduces L_i on terminal t_j for every
+// i in relA[j], the state after 'b' for every i in relB[j]: different terminals of one state see
+// different subsets of the lookahead nonterminals.  ruleAction/addRule merge them terminal by
+// terminal and planner.compile builds one LookaheadRule per distinct set.  For every
+// (state, terminal) the action is read back from Tables.Action/Lalr and the decision list found
+// there is checked against the alternatives that really conflict on THAT terminal.
+func c08Compile(c *Ctx, alts []c08Alt, nIn int, relA, relB [][]int, laOrder []int, family string) {
+	m := len(relA)
+	if len(relB) > m {
+		m = len(relB)
+	}
+	const tB = 1
+	tT := func(j int) int { return 2 + j }
+	nFollow := 0
+	for _, r := range relA {
+		nFollow += len(r)
+	}
+	for _, r := range relB {
+		nFollow += len(r)
+	}
+	terms := 2 + m + nFollow
 	symS := terms
 	symP := func(x int) int { return terms + 1 + x }
 	symL := func(i int) int { return terms + 1 + nIn + i }
 	g := &lalr.Grammar{Terminals: terms, Origin: c08Node(1000)}
-	g.Symbols = append(g.Symbols, "EOI", "a", "b")
+	g.Symbols = append(g.Symbols, "EOI", "b")
+	for j := 0; j < m; j++ {
+		g.Symbols = append(g.Symbols, fmt.Sprintf("t%d", j))
+	}
 	for i := 0; i < nFollow; i++ {
 		g.Symbols = append(g.Symbols, fmt.Sprintf("f%d", i))
 	}
@@ -370,18 +386,36 @@ func c08Compile(c *Ctx, alts []c08Alt, nIn int, g1, g2 []int, laOrder []int) (ok
 		g.Symbols = append(g.Symbols, fmt.Sprintf("L%d", i))
 	}
 	f := 0
-	for _, i := range g1 {
-		g.Rules = append(g.Rules, lalr.Rule{LHS: lalr.Sym(symS), RHS: []lalr.Sym{lalr.Sym(symL(i)), tA, lalr.Sym(3 + f)}, Type: -1, Origin: c08Node(100 + f)})
-		f++
+	type prod struct {
+		i, j int
+		b    bool
 	}
-	for _, j := range g2 {
-		g.Rules = append(g.Rules, lalr.Rule{LHS: lalr.Sym(symS), RHS: []lalr.Sym{tB, lalr.Sym(symL(j)), tA, lalr.Sym(3 + f)}, Type: -1, Origin: c08Node(100 + f)})
+	var prods []prod
+	for j, r := range relA {
+		for _, i := range r {
+			prods = append(prods, prod{i, j, false})
+		}
+	}
+	for j, r := range relB {
+		for _, i := range r {
+			prods = append(prods, prod{i, j, true})
+		}
+	}
+	// rule order decides the order in which ruleAction meets the conflicting reductions
+	c.Rng.Shuffle(len(prods), func(a, b int) { prods[a], prods[b] = prods[b], prods[a] })
+	for _, p := range prods {
+		rhs := []lalr.Sym{lalr.Sym(symL(p.i)), lalr.Sym(tT(p.j)), lalr.Sym(2 + m + f)}
+		if p.b {
+			rhs = append([]lalr.Sym{tB}, rhs...)
+		}
+		g.Rules = append(g.Rules, lalr.Rule{LHS: lalr.Sym(symS), RHS: rhs, Type: -1, Origin: c08Node(100 + f)})
 		f++
 	}
 	for x := 0; x < nIn; x++ {
-		g.Rules = append(g.Rules, lalr.Rule{LHS: lalr.Sym(symP(x)), RHS: []lalr.Sym{tA}, Type: -1, Origin: c08Node(200 + x)})
+		g.Rules = append(g.Rules, lalr.Rule{LHS: lalr.Sym(symP(x)), RHS: []lalr.Sym{lalr.Sym(tT(0))}, Type: -1, Origin: c08Node(200 + x)})
 	}
-	pos := make([]int, len(alts)) // alternative -> index in g.Lookaheads
+	pos := make([]int, len(alts))       // alternative -> index in g.Lookaheads
+	emptyRule := make([]int, len(alts)) // alternative -> its empty rule L_i :
 	for p, i := range laOrder {
 		pos[i] = p
 		la := lalr.Lookahead{Nonterminal: lalr.Sym(symL(i)), Origin: c08Node(i)}
@@ -389,6 +423,7 @@ func c08Compile(c *Ctx, alts []c08Alt, nIn int, g1, g2 []int, laOrder []int) (ok
 			la.Predicates = append(la.Predicates, lalr.Predicate{Input: int32(l.in), Negated: l.neg})
 		}
 		g.Lookaheads = append(g.Lookaheads, la)
+		emptyRule[i] = len(g.Rules)
 		g.Rules = append(g.Rules, lalr.Rule{LHS: lalr.Sym(symL(i)), Type: -1, Origin: c08Node(i)})
 	}
 
@@ -403,84 +438,127 @@ func c08Compile(c *Ctx, alts []c08Alt, nIn int, g1, g2 []int, laOrder []int) (ok
 		}()
 		t, err = lalr.Compile(g, lalr.Options{})
 	}()
-	laErr := err != nil && strings.Contains(err.Error(), "Lookaheads must use mutually exclusive conditions")
-	if err != nil && !laErr {
+	laErr := false
+	if err != nil {
 		for _, e := range status.FromError(err) {
 			if strings.Contains(e.Msg, "Lookaheads must use mutually exclusive conditions") {
 				laErr = true
 			}
 		}
 	}
-	anyPlaceholder := false
-	for gi, grp := range [][]int{g1, g2} {
-		if len(grp) < 2 {
-			continue
+	describe := func() string {
+		var sb strings.Builder
+		fmt.Fprintf(&sb, "lalr.Compile grammar: inputs P0..P%d,S; lookaheads(in g.Lookaheads order):", nIn-1)
+		for _, i := range laOrder {
+			fmt.Fprintf(&sb, " L%d=%s", i, c08Encode([]c08Alt{alts[i]}))
 		}
-		// planner order: sorted by index in g.Lookaheads
-		sorted := append([]int(nil), grp...)
-		sort.Slice(sorted, func(a, b int) bool { return pos[sorted[a]] < pos[sorted[b]] })
-		var in []c08Alt
-		for _, i := range sorted {
-			in = append(in, c08Alt{alts[i].lits, symL(i)})
-		}
-		line := "rule " + c08Encode(in)
-		key := "compile " + line
-		c.Count(fmt.Sprintf("compile group%d size=%d", gi+1, len(grp)))
-		if panicked || t == nil {
-			c.Case(line, "panic", key)
-			continue
-		}
-		state := nIn // start state of input #nIn (S)
-		if gi == 1 {
-			state = lalr.VerifGotoState(t, nIn, tB)
-		}
-		ruleNo := -1
-		if state >= 0 && state < len(t.Action) && t.Action[state] < -2 {
-			for i := -3 - t.Action[state]; i+1 < len(t.Lalr) && t.Lalr[i] >= 0; i += 2 {
-				if t.Lalr[i] == tA {
-					ruleNo = t.Lalr[i+1]
-				}
+		sb.WriteString("; S rules:")
+		for _, p := range prods {
+			if p.b {
+				sb.WriteString(" b")
 			}
+			fmt.Fprintf(&sb, " L%d t%d f |", p.i, p.j)
 		}
-		idx := ruleNo - len(g.Rules)
-		if idx < 0 || idx >= len(t.Lookaheads) {
-			c.Case(line, fmt.Sprintf("no-lookahead-rule state=%d action=%d", state, ruleNo), key)
-			continue
-		}
-		rule := t.Lookaheads[idx]
-		if len(rule.Cases) == 0 {
-			// the placeholder planner.compile installs after an error
-			anyPlaceholder = true
-			c.Count("compile result=err")
-			if !laErr {
-				c.Case(line, "err-without-diagnostic", key)
+		return sb.String()
+	}
+	anyPlaceholder := false
+	for si, rel := range [][][]int{relA, relB} {
+		for j, members := range rel {
+			if len(members) == 0 {
 				continue
 			}
-			c.Case(line, "err", key)
-			continue
+			// planner order: sorted by index in g.Lookaheads
+			sorted := append([]int(nil), members...)
+			sort.Slice(sorted, func(a, b int) bool { return pos[sorted[a]] < pos[sorted[b]] })
+			var in []c08Alt
+			for _, i := range sorted {
+				in = append(in, c08Alt{alts[i].lits, symL(i)})
+			}
+			line := "rule " + c08Encode(in)
+			key := "compile " + line
+			if len(members) >= 2 {
+				c.Count(fmt.Sprintf("%s state%d conflict size=%d", family, si+1, len(members)))
+			}
+			if panicked || t == nil {
+				if len(members) >= 2 {
+					c.Case(line, "panic", key)
+				}
+				continue
+			}
+			state := nIn // start state of input #nIn (S)
+			if si == 1 {
+				state = lalr.VerifGotoState(t, nIn, tB)
+			}
+			ruleNo := -1
+			if state >= 0 && state < len(t.Action) {
+				if a := t.Action[state]; a >= 0 {
+					ruleNo = a
+				} else if a < -2 {
+					for i := -3 - a; i+1 < len(t.Lalr) && t.Lalr[i] >= 0; i += 2 {
+						if t.Lalr[i] == tT(j) {
+							ruleNo = t.Lalr[i+1]
+						}
+					}
+				}
+			}
+			if len(members) == 1 {
+				// no conflict on this terminal: the lookahead nonterminal is reduced unconditionally
+				if ruleNo != emptyRule[members[0]] {
+					c.Violate(fmt.Sprintf("state %d terminal t%d: only L%d can be reduced but the table action is %d (expected rule %d)", state, j, members[0], ruleNo, emptyRule[members[0]]), describe())
+				}
+				continue
+			}
+			idx := ruleNo - len(g.Rules)
+			if idx < 0 || idx >= len(t.Lookaheads) {
+				c.Case(line, fmt.Sprintf("no-lookahead-rule state=%d action=%d", state, ruleNo), key)
+				continue
+			}
+			rule := t.Lookaheads[idx]
+			if len(rule.Cases) == 0 {
+				// the placeholder planner.compile installs after an error
+				anyPlaceholder = true
+				c.Count(family + " result=err")
+				if !laErr {
+					c.Case(line, "err-without-diagnostic", key)
+					continue
+				}
+				c.Case(line, "err", key)
+				continue
+			}
+			if t.RuleLen[ruleNo] != 0 || t.RuleSymbol[ruleNo] != int(rule.DefaultTarget) {
+				c.Case(line, "bad-rule-tables", key)
+				continue
+			}
+			c.Count(family + " result=ok")
+			c.Case(line, "ok "+c08Table(in, rule), key)
+			before := len(c.Violations)
+			c08Oracle(c, in, rule, line)
+			if len(c.Violations) > before {
+				v := &c.Violations[len(c.Violations)-1]
+				v.What = fmt.Sprintf("state %d terminal t%d (conflicting: %v): %s", state, j, sorted, v.What)
+				v.Input = v.Input + " ## " + describe()
+			}
 		}
-		if t.RuleLen[ruleNo] != 0 || t.RuleSymbol[ruleNo] != int(rule.DefaultTarget) {
-			c.Case(line, "bad-rule-tables", key)
-			continue
-		}
-		c.Count("compile result=ok")
-		c.Case(line, "ok "+c08Table(in, rule), key)
-		c08Oracle(c, in, rule, line)
 	}
 	if laErr && !anyPlaceholder && !panicked {
-		c.Violate("lalr.Compile reported a lookahead error but every merged rule was built", "compile "+c08Encode(alts))
+		c.Violate("lalr.Compile reported a lookahead error but every merged rule was built", describe())
 	}
-	return true
 }
 
 func c08(c *Ctx) {
-	c.Rule = "sets of 0-6 alternatives over 1-5 predicate inputs: 40% decision-list shaped (accepted by construction when the order is total), " +
+	c.Rule = "(A) constructor: sets of 0-6 alternatives over 1-5 predicate inputs: 40% decision-list shaped (accepted by construction when the order is total), " +
 		"20% decision-tree shaped (exclusive, often not decidable by a list), 30% unconstrained random, 10% degenerate (0/1 alternatives, empty conjunctions, repeated inputs); " +
 		"35% get 1-2 mutations (flip/drop/swap/insert/retarget literal, shared target, copied conjunction); alternatives shuffled; " +
-		"real lalr.newLookaheadRule via hook, answer = accept/reject + target chosen on every valuation satisfying exactly one alternative; " +
 		"plus every pair of alternatives with <=2 literals over 2 inputs (thorough: also triples, and pairs over 3 inputs with <=3 literals); " +
-		"plus grammars S: L_i a f_i | b L_j a g_j through lalr.Compile (ruleAction/addRule/planner.compile), rule read back from Tables.Lalr/Lookaheads; " +
-		"non-trivial = at least 2 alternatives with a predicate; distinct by alternative list"
+		"real lalr.newLookaheadRule via hook, answer = accept/reject + target chosen on every valuation satisfying exactly one alternative. " +
+		"(B) planner through lalr.Compile: grammars S: L_i t_j f | b L_i t_j f where every terminal t_j of a state is followed by its own subset of the lookahead nonterminals " +
+		"(ruleAction/addRule/planner.compile); for every (state, terminal) the action is read back from Tables.Action/Lalr/Lookaheads and the decision list is checked against the alternatives conflicting on THAT terminal " +
+		"(single candidate: must be the plain empty rule). " +
+		"(C) end to end: grammars Input: (?= P & !Q ...) F_i T T -> R<i> with 2-4 alternatives (decision-list shaped, 15% mutated; first-token sets F_i all terminals or random subsets; predicates = random prefix-free finite languages) " +
+		"plus two fixed shapes (negated case inside the list; per-terminal subsets) go through the real compiler+generator, each as cancellable and non-cancellable parser with/without optimizeTables; " +
+		"the generated parsers run on all token strings of length 3; oracle: predicate outcomes by brute-force prefix recognition, expected alternative = the unique one (among those that can start with the first token) whose conjunction holds; " +
+		"the same (alternatives, outcomes) go to the Lean mirror's decision chain. " +
+		"Brute-force oracle over all valuations in (A),(B). non-trivial = at least 2 alternatives with a predicate; distinct by alternative list (A,B) / parser+input (C)"
 	n := c.N(4000, 300000)
 	var exactLines, exactGo []string
 	emit := func(alts []c08Alt, gen string) {
@@ -654,9 +732,59 @@ func c08(c *Ctx) {
 				}
 			}
 		}
-		r.Shuffle(len(g1), func(i, j int) { g1[i], g1[j] = g1[j], g1[i] })
-		c08Compile(c, alts, nIn, g1, g2, r.Perm(len(alts)))
+		var relB [][]int
+		if len(g2) > 0 {
+			relB = [][]int{g2}
+		}
+		c08Compile(c, alts, nIn, [][]int{g1}, relB, r.Perm(len(alts)), "compile")
 	}
+
+	// planner path, per-terminal conflict sets: every alternative is followed by its own subset of
+	// 2-3 terminals, so the terminals of the state see different subsets of the alternatives
+	np := c.N(400, 15000)
+	for it := 0; it < np; it++ {
+		r := c.Rng
+		nIn := 1 + r.Intn(4)
+		k := min(3+r.Intn(3), nIn+1)
+		if k < 2 {
+			k = 2
+		}
+		alts := c08GenList(c, nIn, k)
+		if r.Intn(100) < 15 {
+			c08Mutate(c, alts, nIn)
+		}
+		for i := range alts {
+			alts[i].target = 10 + i
+		}
+		c08Shuffle(c, alts)
+		m := 2 + r.Intn(2)
+		mkRel := func() [][]int {
+			rel := make([][]int, m)
+			for i := range alts {
+				n := 0
+				for j := 0; j < m; j++ {
+					if r.Intn(100) < 60 {
+						rel[j] = append(rel[j], i)
+						n++
+					}
+				}
+				if n == 0 {
+					j := r.Intn(m)
+					rel[j] = append(rel[j], i)
+				}
+			}
+			return rel
+		}
+		relA := mkRel()
+		var relB [][]int
+		if r.Intn(3) == 0 {
+			relB = mkRel()
+		}
+		c08Compile(c, alts, nIn, relA, relB, r.Perm(len(alts)), "compile-per-terminal")
+	}
+
+	// generated decision code, end to end
+	c08EndToEnd(c)
 
 	// Informational: literal (case list) agreement of the mirror with the real function.
 	// Not part of the verdict: a different but equivalent case order is not a violation.
